@@ -467,6 +467,10 @@ class ArgumentParser(ParserDeprecations, ActionsContainer, ArgumentLinking, argp
 
         except (TypeError, KeyError) as ex:
             self.error(str(ex), ex)
+        finally:
+            # a print config request that was not consumed (failed parse, --help, ...) must not leak into later calls
+            if hasattr(self, "print_config"):
+                delattr(self, "print_config")
 
         self._logger.debug("Parsed command line arguments: %s", args)
         return parsed_cfg
